@@ -317,7 +317,26 @@ def run(ctx):
         "linearisation (value/Jacobian of the polynomial field at the model's exact predicted mean) is evaluated on the Python side in exact arithmetic; the model of `linearize` itself is C11",
         "IWP prior with taylor_point_prior; exponential priors and MAP Taylor points are covered by C09/C19, not here",
     ]
-    n = ctx.n(18, 240)
+    # deterministic corpus first: rare conjunctions of options that random sampling may miss in a quick run
+    # (each: one non-autonomous polynomial field, two steps)
+    corpus_cfgs = [
+        sm.Config(fact="bd", solver="solver", lin="ts1", q=2, damp=0.125),
+        sm.Config(fact="iso", solver="solver", lin="ts1", q=2, damp=0.125, init="inexact"),
+        sm.Config(fact="dense", solver="dynamic_relin", lin="ts1", q=2),
+        sm.Config(fact="bd", solver="dynamic_relin", lin="ts0", q=3, init="inexact"),
+        sm.Config(fact="dense", solver="mle", lin="ts0", q=3, diffuse=3, constraint_init=True),
+        sm.Config(fact="iso", solver="mle_nocorr", lin="ts0", q=2, init="inexact", constraint_init=True),
+        sm.Config(fact="bd", solver="mle", lin="ts1", q=2, damp=0.125, constraint_init=True, base_scale=[0.5, 2.0]),
+        sm.Config(fact="dense", solver="solver", lin="ts1", q=3, prior="ou"),
+        sm.Config(fact="dense", solver="mle", lin="ts0", q=2, prior="matern", init="inexact"),
+        sm.Config(fact="iso", solver="dynamic", lin="ts1", q=4, damp=0.125, base_scale=4.0),
+        sm.Config(fact="dense", solver="solver", lin="ts0", q=3, diffuse=1, constraint_init=True, base_scale=[0.25, 4.0]),
+    ]
+    cf = problems.PolyField(2, 1, [[(Fraction(1, 2), (1, 1, 0)), (Fraction(-3, 4), (0, 0, 2))], [(Fraction(5, 8), (2, 0, 1)), (Fraction(1, 4), (0, 1, 0))]])
+    for cfg in corpus_cfgs:
+        refine_steps(ctx, cfg, 2, cf, [np.array([0.5, -0.25])], 0.25, [0.125, 0.046875], sigp="step")
+        ctx.count("corpus-config")
+    n = ctx.n(14, 240)
     for it in range(n):
         cfg, d, order = random_config(ctx, "filter", it)
         field, u0s, t0 = make_problem(ctx, cfg, d, order)
